@@ -582,10 +582,8 @@ func VerifC36ReadOnly() {
 				ob.deleteAll()
 			}
 		case 14:
-			if _, ok := m.get(k); !ok {
-				mayReturn = true // nothing to update (member not found is reported instead)
-			}
-			c.GetPut(nil, IntVal(k), IntVal(v), OpAdd, false)
+			// (an absent member of an object is reported as not found, which is a panic too)
+			c.GetPut(nil, IntVal(k), IntVal(v), func(x, y Value) Value { return y }, false)
 		case 15, 16:
 			child.Add(IntVal(v))
 		}
